@@ -28,6 +28,10 @@ def target_ops(ctx, bs):
         ["open 1 %s %s r" % (D, B), "read 1 %d hex" % (4 * bs), "seek 1 0", "read 1 10 hex", "close 1"],
         ["list - 0 1", "lookup %s %s" % (D, B), "list - 1 0"],
         ["open 1 - %s rw" % A, "seek 1 %d" % (73 * bs + 1), "read 1 30 hex", "seek 1 10", "read 1 %d hex" % (bs + 20), "close 1"],
+        # sequential reads through the 72-block edge into the extension-block area: a failed transfer is followed by more reads on the same handle
+        ["open 1 - %s r" % A, "seek 1 %d" % (70 * bs)] + ["read 1 %d hex" % bs] * 6 + ["close 1"],
+        ["open 1 - %s r" % A, "seek 1 %d" % (71 * bs + 100)] + ["read 1 %d hex" % (bs + bs // 2 + 7)] * 3 + ["close 1"],
+        ["open 1 - %s r" % A, "read 1 %d hex" % (73 * bs), "read 1 %d hex" % bs, "read 1 %d hex" % bs, "close 1"],
     ]
     writes = [
         ["open 1 - %s rw" % A, "seek 1 %d" % (bs - 10), "write 1 9 40", "seek 1 0", "read 1 60 hex", "close 1"],
@@ -84,6 +88,19 @@ def run(ctx):
         reads, writes = target_ops(ctx, bs)
         verify = ["fault clear", "open 5 - %s r" % A, "read 5 %d" % (80 * bs), "close 5", "open 5 %s %s r" % (D, B), "read 5 %d" % (5 * bs), "close 5"]
         verify_after_remount = ["umount", "umountdev", "mountdev 0", "mount 0 0"] + verify[1:]
+        # the true content of both files (reference model)
+        Lt = base + ["open 5 - %s r" % A] + ["read 5 4096 hex"] * 12 + ["close 5", "open 5 %s %s r" % (D, B)] + ["read 5 4096 hex"] * 2 + ["close 5"]
+        et = expected(ctx, Lt)
+
+        def cat(first, count):
+            out_ = b""
+            for k_ in range(first, first + count):
+                d_ = common.kv(et.get(k_, ""))[1].get("data", "-")
+                out_ += bytes.fromhex(d_) if d_ not in ("-", "") else b""
+            return out_
+        true_bytes = {"A": cat(len(base) + 2, 12), "B": cat(len(base) + 16, 2)}
+        if len(true_bytes["A"]) != 75 * bs + 100 or len(true_bytes["B"]) != 3 * bs + 9:
+            ctx.notes.append("reference content of the test files could not be computed (flavour %d)" % flav)
         for kind, groups in (("read-side", reads), ("write-side", writes)):
             for g in groups:
                 L0 = base + g
@@ -131,6 +148,28 @@ def run(ctx):
                         ctx.fail("crash", "crash / invalid access / hang (exit %d) after an injected device %s failure" % (rc, "read" if rw == "rd" else "write"), inp,
                                  expected="error return", actual=(out[-2:], [l for l in err.splitlines() if "ERROR" in l or "SUMMARY" in l][:2]))
                         continue
+                    # (2a) every read of the faulted run, on whichever handle state the fault left: the bytes delivered are the file's
+                    #      true bytes at the offset the call started from (reported position minus delivered count)
+                    if kind == "read-side" and true_bytes["A"]:
+                        which = None
+                        for j, cmd in enumerate(g):
+                            if cmd.startswith("open 1"):
+                                which = "A" if cmd.split()[2] == "-" and cmd.split()[3] == A else "B"
+                            if not cmd.startswith("read") or which is None:
+                                continue
+                            lj = len(base) + j + 1 + (1 if j >= oi else 0) + (1 if j > oi else 0)
+                            got = (res.get(lj) or ["?"])[-1]
+                            if not got.startswith("ok"):
+                                continue
+                            dg = common.kv(got)[1]
+                            nn, pp = int(dg.get("n", "0")), int(dg.get("pos", "0"))
+                            if nn > 0 and dg.get("data"):
+                                want = true_bytes[which][pp - nn: pp]
+                                if bytes.fromhex(dg["data"]) != want:
+                                    ctx.fail("oracle", "a read call returned bytes that differ from the file's true content at that offset (after an injected device read failure)",
+                                             dict(inp, read_call=cmd, read_call_index=j, offset=pp - nn, count=nn),
+                                             expected=want[:24].hex() + "...", actual=dg["data"][:48] + "...")
+                                    break
                     # (2) read calls never return wrong bytes (read-side groups: the model's bytes are the truth)
                     if kind == "read-side":
                         # map lines of L to lines of L0: lines after the inserted 'fault' shift by +1 / +2
